@@ -3,9 +3,14 @@
     (Spec/StackSpec.v: [o_cmps]) and of the observation of the model (ghost
     [Mark 1] emitted by every checker invocation with both contents), so the
     matrix sweep proves them equal on the property's whole matrix; the general
-    lemmas below are about the specification itself, for stacks of any depth. *)
+    lemmas below are about the specification itself, for stacks of any depth.
+    And, for stacks of ANY depth and arbitrary environment responses: with a
+    checker configured a successful lookup has walked the WHOLE itinerary - every
+    level's copy was opened, in order, none skipped - and still returns the first
+    handle obtained ([C14_every_copy_seen_any_depth]); the model's checkers open
+    nothing by path themselves ([C14_checkers_open_nothing]). *)
 From Coq Require Import List NArith ZArith String Bool.
-From Kismet Require Import Ops.Ops Spec.StackSpec Proofs.StackSweep.
+From Kismet Require Import Pure.Hash FS.Fs FS.Prog Spec.Wp Spec.ClassMon Spec.Calm Ops.Ops Ops.Client Spec.StackSpec Proofs.StackSweep Proofs.LookupOrder.
 Import ListNotations.
 
 (** Model = specification, comparisons included, on the whole matrix
@@ -57,4 +62,18 @@ Proof.
   intros. unfold spec, ro_lookup.
   destruct (flat_map _ rs); destruct hw, w, op; cbn; try reflexivity;
     repeat match goal with |- context [match ?x with _ => _ end] => destruct x; cbn; try reflexivity end.
+Qed.
+
+(** Every redundant copy is seen, for stacks of any depth, all responses. *)
+Theorem C14_every_copy_seen_any_depth : forall ck cfg k,
+  (forall a b, allc nopen (ck a b) anyc) -> s_checker cfg = Some ck ->
+  wp (lo_step true) (cache_get cfg k)
+     (fun r s' => match r with Ok x => s' = ([], x) | _ => True end) (itinerary cfg k, None).
+Proof. intros ck cfg k H. exact (lookup_order_checked ck H cfg k). Qed.
+
+Theorem C14_checkers_open_nothing : forall a b fail,
+  allc nopen (chk_byteeq a b) anyc /\ allc nopen (chk_panic a b) anyc /\ allc nopen (chk_count fail a b) anyc /\ allc nopen (chk_count_nf a b) anyc.
+Proof.
+  intros a b fail. repeat split.
+  all: unfold chk_byteeq, chk_panic, chk_count, chk_count_nf, read_all; allc_auto; apply allc_call; reflexivity.
 Qed.
